@@ -23,6 +23,11 @@ def check_isa_sync(repo: Repo, chk: Check, rule="R09.a"):
               {"n": len(names)}, where=str(repo.root / "webapp/src/ic10.json"))
 
 
+def decompose_test(test):
+    from ..cfg import decompose
+    return decompose(test, True)
+
+
 def site_opcode_check(repo, chk, s, rule):
     """Judge one emission site against the ISA oracle."""
     ops = s.opcodes
@@ -442,6 +447,27 @@ def r09d(repo: Repo, chk: Check):
                 judge_computed(holes[0].value, node)
     if found < 2:
         raise AnalysisError(f"to_string: expected two float formats, recognised {found}")
+    # whole numbers leave IC10Operand.__init__ as int, of any size: the 16-digit format of to_string switches to exponent notation ('1e+16') from 1e16 on,
+    # which IC10 does not read; what reaches it must therefore be a fraction (and every double from 2**53 on is whole)
+    init_f = m.func("IC10Operand.__init__")
+    p_ = init_f.args.args[1].arg if len(init_f.args.args) > 1 else "value"
+    whole_arms = []
+    for test, body, node in _if_chain(init_f.body):
+        if test is None:
+            continue
+        atoms = [a_ for a_, pol_ in decompose_test(test)]
+        if any(isinstance(a_, ast.Call) and norm(a_.func) == "isinstance" and "float" in norm(a_) for a_ in atoms) and any(
+                isinstance(st, ast.Assign) and isinstance(st.value, ast.Call) and norm(st.value.func) == "int" for st in body):
+            whole_arms.append((test, atoms))
+    if not whole_arms:
+        chk.unresolved("R09.d", "types:IC10Operand.__init__:whole floats become int whatever their size", "the arm that turns a whole float into an int was not found",
+                       f"{m.path}:{init_f.lineno} in IC10Operand.__init__")
+    for test, atoms in whole_arms:
+        extra = [norm(a_) for a_ in atoms if not (isinstance(a_, ast.Call) and norm(a_.func) == "isinstance")
+                 and norm(a_) not in (f"int({p_}) == {p_}", f"{p_} == int({p_})", f"{p_}.is_integer()", f"{p_} % 1 == 0", f"math.floor({p_}) == {p_}", f"{p_} == math.floor({p_})")]
+        chk.judge("R09.d", "types:IC10Operand.__init__:whole floats become int whatever their size", not extra,
+                  f"a whole float becomes an int only if also {extra}: the others reach the 16-digit format of to_string, which prints 1e+16, 2.5e+20 for them - "
+                  f"exponent notation is not an IC10 number", {"test": norm(test)}, f"{m.path}:{init_f.lineno} in IC10Operand.__init__")
     # a register object may carry a literal instead of a register name (a variable that stands for a constant): the float among
     # them must not be returned as it is (Python would print 1e-05)
     from .shared import return_paths
